@@ -213,8 +213,17 @@ class C10(Prop):
         return E.run_harness(self.exe, self.conf, cases, ctx.rundir)
 
     # ---- generators ------------------------------------------------------
+    def wheel(self):
+        """the regenerated CALLOUT_CYCLE_SIZE (cases that aim at the end of the int range are stated relative to it)"""
+        try:
+            m = re.search(r"def calloutCycleSize : \w+ := (\d+)", open(os.path.join(E.LEAN, "NV/Gen/C10.lean")).read())
+            return int(m.group(1))
+        except Exception:
+            return 32
+
     def boundary(self):
         B = []
+        last = 2 ** 31 // self.wheel() - 1          # the largest serial whose handle is still an int
 
         def mk(name, lines, nobj=2):
             head = ["clone o%d /c10/obj" % i for i in range(1, nobj + 1)]
@@ -306,7 +315,7 @@ class C10(Prop):
         mk("call_out-by-destructed", ["vapply o1 do_op co,0,2,a", "vapply o1 do_op destco,o1", "vapply o2 set_script co:b destco,o2",
                                       "vapply o2 do_op co,1,1,b", "adv 1", "sweep", "adv 1", "sweep"])
         # handles right below the end of the int range (the call_out after these is the open known finding)
-        mk("handle-last-int", ["setuniq 67108861", "vapply o1 do_op co,0,5,a", "vapply o1 do_op cofp,1,37,b", "vapply o1 do_op fh,a",
+        mk("handle-last-int", ["setuniq %d" % (last - 2), "vapply o1 do_op co,0,5,a", "vapply o1 do_op cofp,1,37,b", "vapply o1 do_op fh,a",
                                "vapply o1 do_op fh,b", "vapply o1 do_op rmh,a", "vapply o1 do_op info", "setuniq 5", "adv 37", "sweep"])
         mk("fp-bound-arg", ["vapply o1 do_op cofpb,2,3,a", "vapply o1 do_op co,2,3,b", "vapply o1 do_op fn,2", "vapply o1 do_op info",
                             "vapply o1 do_op rmn,2", "vapply o1 do_op fh,a", "vapply o2 do_op cofpb,1,3,c", "vapply o1 do_op dest,o2",
@@ -385,7 +394,8 @@ class C10(Prop):
         head = ["clone o%d /c10/obj" % i for i in range(1, nobj + 1)]
         if rng.chance(1, 4):
             # large handle serials (verif hook); the last one leaves room for a few hundred call_outs below 2^31 / 32
-            head.append("setuniq %d" % rng.choice([1000, 1048576, 33554431, 67108000]))
+            top = 2 ** 31 // self.wheel() - 1
+            head.append("setuniq %d" % rng.choice([1000, top // 64, top // 2, top - 800]))
         return E.Case(cid, head + body, {"origin": "generated"})
 
     def generate(self, rng, n, tier):
